@@ -588,7 +588,7 @@ def fit_rscale(xy, uv, wxy=None, wuv=None, scale=None):
     cthetax = mag * ctheta
     sthetay = mag * stheta
 
-    sdet = np.sign(det)
+    sdet = -1.0 if det < 0 else 1.0
     xshift = xm - um * cthetax - sdet * vm * sthetax
     yshift = ym + sdet * um * sthetay - vm * cthetay
 
